@@ -165,7 +165,7 @@ def run(tier, seed, t0):
             verdicts += core.validate("Trace_Snake", "J07", part, work, constants=dict(consts, MaxBoxes=0), timeout=3000)["verdicts"]
             os.remove(part)
         val = {"verdicts": verdicts}
-        rejected, clauses = [], Counter()
+        rejected, clauses = core.track([]), Counter()
         for t, v in zip(rows, val["verdicts"]):
             clauses[v[0]] += 1
             if v[0] != "ok":
